@@ -231,9 +231,11 @@ class SmtFlow:
                 if node[0] == "ins":
                     self.step(node[1], node[2], st, ev, depth, nxt)
                 elif node[0] == "if":
-                    c = st.pop(0)
-                    nxt += self.run(node[1], st, ev + [("branch", node[-1], c, True)], depth)
-                    nxt += self.run(node[2], st, ev + [("branch", node[-1], c, False)], depth)
+                    c, pos = st.pop(0), True
+                    while isinstance(c, tuple) and c and c[0] == "not":          # if.true on `not flag` = the other branch of flag
+                        c, pos = c[1], not pos
+                    nxt += self.run(node[1], st, ev + [("branch", node[-1], c, pos)], depth)
+                    nxt += self.run(node[2], st, ev + [("branch", node[-1], c, not pos)], depth)
                 else:
                     raise Undecided("%s: control flow %s" % (self.m.path, node[0]))
             states = nxt
@@ -267,6 +269,8 @@ class SmtFlow:
                 if v is None:
                     v = int(x, 16) if x.startswith("0x") else int(x)
                 st.insert(0, ("c", v))
+        elif op == "not":
+            st.insert(0, ("not", st.pop(0)))
         elif op == "eqw":
             fl = self.fresh("flag")
             ev.append(("eqw", ln, tuple(st[0:4]), tuple(st[4:8]), fl))
@@ -445,6 +449,30 @@ def r3b_smt_values(ctx, F):
                 reported.add((proc, bad))
                 ctx.violation("smt-unauthenticated-value|%s" % proc, loc, "smt::%s: %s" % (proc, bad))
     ctx.floor("smt-authenticated-values", n_auth, 3)
+    # completeness of get on an occupied leaf: the leaf index is K[3] only, so a key that was never inserted can share its leaf
+    # with an inserted key; the native tree returns the empty word for it, so the comparison of the leaf's key with the
+    # requested key must be a decision with an empty-word outcome, not an assertion
+    if "get" in M.procs:
+        loc = "stdlib/asm/collections/smt.masm:%d" % M.procs["get"].line
+        stack = [("in", w, 3 - j) for w in ("K", "R") for j in range(4)]
+        stack += [("deep", i) for i in range(len(stack), 40)]
+        K = tuple(("in", "K", 3 - j) for j in range(4))
+        ctx.inst(key="smt-values::get|other-key-in-leaf", nontrivial=True)
+        try:
+            finals = SmtFlow(M, consts).run(M.procs["get"].body, stack, [])
+        except (Undecided, MasmError, IndexError) as e:
+            ctx.violation("UNANALYSABLE|smt-values::get", loc, str(e)[:300])
+            return
+        ok = False
+        for st, ev in finals:
+            not_taken = {e[2] for e in ev if e[0] == "branch" and e[3] is False}
+            differs = any(e[0] == "eqw" and K in (e[2], e[3]) and e[4] in not_taken and all(isinstance(x, tuple) and x[0] == "f" and x[2] == "advice" for x in (e[2] if e[3] == K else e[3])) for e in ev)
+            if differs and tuple(st[:4]) == ZERO and any(e[0] == "hmerge" for e in ev):
+                ok = True
+        ctx.oblig(ok)
+        if not ok:
+            ctx.violation("smt-get-other-key-in-leaf", loc, "smt::get has no completing path that returns the empty word for a requested key that differs from the key stored in the (single) leaf "
+                          "it maps to; the documentation and the native Smt::get_value give the empty word there")
 
 
 # ---- R4: Merkle mountain range procedures ---------------------------------------------------------------------------------------
